@@ -159,6 +159,27 @@ CLAIMED = {
         'must give the same exported text.',
         'Trusted: TLC; the generator; openpyxl for writing the source files.',
         'DESIGN.md 4/C09'),
+    'C14': (
+        'TLC model checking of Workbook.tla with unresolvable items (every '
+        'schedule reaches a total fixed point = SemF) over every subset of the '
+        'fault sites + replay on real files with the missing items really '
+        'missing + TLC trace validation (CalcTrace.tla) of the recorded '
+        'calculation',
+        'For generated workbooks 1-3 fault sites are chosen (unknown and '
+        '_xlfn. functions, missing sheets - sorting before and after the '
+        'existing ones -, missing books, an unreadable book file, undefined '
+        'names, #REF! literals; bare, inside arithmetic, inside SUM, inside '
+        'IFERROR / ISERROR) and every subset of them is one case. TLC explores '
+        'every schedule: no stuck state, every value equals SemF (errors as '
+        'ordinary values; a formula using an unimplemented function is '
+        '#NAME? as a whole). Each case is written to .xlsx with the absent '
+        'files absent and the unreadable one garbage, loaded, finished and '
+        'calculated: no exception, every cell equals SemF - hence cells '
+        'outside the faults\' cones keep the fault-free values and IFERROR / '
+        'ISERROR intercept - and the recorded calculation is a Calc behaviour.',
+        'Trusted: TLC; the generator; openpyxl. Faults are injected in the '
+        'file path only (from_dict has no completion step).',
+        'DESIGN.md 4/C14'),
     'C15': (
         'TLC model checking of Complete.tla (Needs closure vs the work-list '
         'machine of complete() under every pop order) + replay of '
